@@ -24,9 +24,15 @@ IMPORTS = ["Base", "Consts", "Select", "Pipeline", "Consts_here"]
 TOL = 1e-6
 
 
-def gen_cases(rng, n, n_adv):
+def gen_cases(rng, n, n_adv, n_ship=0):
     cases = [{"seed": rng.randrange(1 << 30), "stream": "friendly"} for _ in range(n)]
     cases += [{"seed": rng.randrange(1 << 30), "stream": "adversarial"} for _ in range(n_adv)]
+    import shipdesc
+    for k in range(n_ship):
+        cases.append({"seed": rng.randrange(1 << 30), "stream": "shipped", "gene": shipdesc.SMALL[k % len(shipdesc.SMALL)],
+                      "prefer_overlap": k < len(shipdesc.SMALL)})
+    for j in range(3 if n_ship else 0):     # every pair of NUDT15 in which one allele deletes bases where the other has a variant
+        cases.append({"seed": rng.randrange(1 << 30), "stream": "shipped", "gene": "nudt15", "prefer_overlap": True, "overlap_index": j})
     return cases
 
 
@@ -120,16 +126,42 @@ def run_case(case):
     rng = random.Random(case["seed"])
     friendly = case["stream"] == "friendly"
     with tempfile.TemporaryDirectory(dir=common.SCRATCH) as d:
-        yml, desc = gendb.write_db(d, rng, n_alleles=rng.randint(3, 9), simulation_friendly=friendly,
-                                   length=rng.randint(300, 1600), deletion=(rng.random() < 0.7))
-        build = rng.choice(["hg19", "hg38"])
-        L = rng.choice([50, 75, 100, 150, 200, 250])
+        if case["stream"] == "shipped":
+            # a small shipped database (no pseudogene, no structural alleles): error-free reads of two catalogued alleles
+            import shipdesc
+            build = rng.choice(["hg19", "hg38"])
+            yml, desc, _g = shipdesc.desc_from_gene(case["gene"], build, case["seed"])
+            desc["opts"] = {"refseq_span": "gene"}
+        else:
+            yml, desc = gendb.write_db(d, rng, n_alleles=rng.randint(3, 9), simulation_friendly=friendly,
+                                       length=rng.randint(300, 1600), deletion=(rng.random() < 0.7))
+            build = rng.choice(["hg19", "hg38"])
+        L = rng.choice([50, 75, 100, 150, 200, 250]) if case["stream"] != "shipped" else rng.choice([100, 150])
         depth = rng.choice([20, 25, 30]) if L not in (75,) else 25
         step = max(1, L // depth)
         while L % step:
             step -= 1
         prof = simreads.make_profile(desc, yml, build, L, step, d, rng, kind=rng.choice(["yaml", "bam"]))
-        kind, alleles = plant(rng, desc)
+        if case["stream"] == "shipped":
+            names = sorted(desc["alleles"])
+            withvar = [n for n in names if desc["alleles"][n]["variants"]]
+            kind = "two"
+            # pairs in which one allele DELETES bases where the other allele has a variant (e.g. NUDT15 *5/*9: the two haplotypes
+            # disagree inside the deleted span) are planted first when the catalogue has any
+            span = lambda v: (v[0], v[0] + (len(v[1][3:].split("ins")[0]) if v[1].startswith("del") else len(v[1].split(">")[0]) if ">" in v[1] else 1))
+            overl = [(a, b) for a in withvar for b in withvar if a != b and any(
+                va[1].startswith("del") and not vb[1].startswith("del") and span(va)[0] < span(vb)[1] and span(vb)[0] < span(va)[1] and
+                (span(vb)[0] > span(va)[0] or span(va)[1] - span(va)[0] > 1)
+                for va in desc["alleles"][a]["variants"] for vb in desc["alleles"][b]["variants"])]
+            if case.get("alleles"):
+                alleles = case["alleles"]
+            elif overl and case.get("prefer_overlap"):
+                alleles = list(sorted(overl)[case["overlap_index"] % len(overl)] if "overlap_index" in case else rng.choice(sorted(overl)))
+                kind = "two-overlapping"
+            else:
+                alleles = [rng.choice(withvar), rng.choice(withvar if rng.random() < 0.6 else names)]
+        else:
+            kind, alleles = plant(rng, desc)
         bam = os.path.join(d, f"S{case['seed'] % 100000}.bam")
         info = simreads.simulate(desc, build, alleles, None, L, step, bam, rng)
         out = {"planted": alleles, "kind": kind, "build": build, "strand": desc["builds"][build]["strand"], "L": L, "depth": L // step,
@@ -302,14 +334,15 @@ def load_corpus():
 def run(chk):
     chk.rule = ("a case is a seed (database, build/strand, read length, depth, profile kind, planted multiset and structure); non-trivial = "
                 "the planted copies carry at least one variant or the structure is not plain two-copy; distinct = distinct (planted "
-                "alleles, variant multiset, strand, read length, depth)")
+                "alleles, variant multiset, strand, read length, depth); stream shipped = two catalogued alleles of a small shipped database")
     chk.build()
-    n, n_adv = (60, 10) if chk.tier == "quick" else (600, 150)
-    evaluate(chk, load_corpus() + gen_cases(chk.rng, n, n_adv))
+    n, n_adv, n_ship = (60, 10, 10) if chk.tier == "quick" else (600, 150, 120)
+    evaluate(chk, load_corpus() + gen_cases(chk.rng, n, n_adv, n_ship))
     chk.assumptions = ["PARTIAL: the theorems assume the ideal-pileup evidence hypotheses E1-E6 (coq/props/C01.v); whether real reads give "
                        "them is measured per case here (evidence-ideal / evidence-not-ideal) and the realigner is a foreign component",
                        "the escape clause of the statement is decided with the structure stage's own scores",
-                       "small shipped genes are not simulated (their reference context outside the RefSeq window is not in the database)"]
+                       "small shipped genes (stream shipped: nudt15, cyp1a1, cyp2a13, cyp1a2, cyp2f1, ifnl3, nat2, cyp2w1, gstp1, cyp2e1) are simulated on "
+                       "aldy's own genome-oriented RefSeq with random flanks and a synthetic neutral stretch next to the gene (harness/shipdesc.py)"]
 
 
 def replay(chk, path):
